@@ -90,6 +90,9 @@ type Config struct {
 	// ExactTwoThirds: liveness run in which the honest members hold exactly 2/3 of a scaled total
 	// divisible by three.
 	ExactTwoThirds bool
+	// OverLong: in instance 0 member OverLongMember is handed an EC chain of more than 128 tipsets.
+	OverLong       bool
+	OverLongMember int
 	// Deviant is the index of an honest member that enters instance 0 with a base differing from
 	// everybody else's (-1: none); DeviantKind says how (0 commitments, 1 power-table CID, 2 key).
 	// Such a member can never decide: every decision must start at the decider's own base.
@@ -99,6 +102,7 @@ type Config struct {
 }
 
 type Member struct {
+	effectiveInput map[uint64]*gpbft.ECChain // what the participant proposes when the EC chain handed over was over-long
 	deviant bool // entered instance 0 with a base nobody else has
 	Idx  int
 	ID   gpbft.ActorID
@@ -376,6 +380,23 @@ func (w *World) inputFor(m *Member, info *InstanceInfo) *gpbft.ECChain {
 		}
 	}
 	ch := &gpbft.ECChain{TipSets: append([]*gpbft.TipSet{info.Base}, info.Tree[b][:l]...)}
+	if w.cfg.OverLong && info.K == 0 && m.Idx == w.cfg.OverLongMember {
+		// the EC chain handed over is longer than a proposal may be: the participant has to cut it
+		// down to the maximum length itself (what it then proposes is the prefix of 128 tipsets)
+		ts := append([]*gpbft.TipSet(nil), ch.TipSets...)
+		epoch := ts[len(ts)-1].Epoch
+		for len(ts) < gpbft.ChainMaxLen+1+w.c.Intn(40) {
+			epoch++
+			ts = append(ts, mkTipset(epoch, fmt.Sprintf("k%d-long-%d", info.K, len(ts))))
+		}
+		w.r.Fault("over_long_ec_chain")
+		full := &gpbft.ECChain{TipSets: ts}
+		cut := &gpbft.ECChain{TipSets: ts[:gpbft.ChainMaxLen]}
+		info.Inputs[m.Idx] = full
+		info.AllInputs = append(info.AllInputs, cut)
+		m.effectiveInput = map[uint64]*gpbft.ECChain{info.K: cut}
+		return full
+	}
 	info.Inputs[m.Idx] = ch
 	info.AllInputs = append(info.AllInputs, ch)
 	return ch
